@@ -15,6 +15,12 @@
 #include "inner.h"
 #include <gmp.h>
 
+#if BR_INT128 || BR_UMUL128
+#define I62_NATIVE 1
+#else
+#define I62_NATIVE 0
+#endif
+
 static vf_rng R;
 static int g_thorough = 0;
 static long long g_budget = 1000000;   /* word-multiplications allowed per modpow call */
